@@ -160,6 +160,8 @@ Proof.
     destruct (negb (is_imap x)); [exact H|].
     destruct (items x); [destruct (okey_eqb _ _)|]; exact H.
   - apply (SemB_do_tick_close (with_sigs s [])). exact H.
+  - unfold do_join_shutdown. destruct (wlist _); cbn [fst]; [exact H|].
+    apply (SemB_sn (with_sigs s [])); [apply sn_join_exited|exact H].
 Qed.
 
 Lemma SemB_init c : SemB (init c).
